@@ -19,8 +19,8 @@ CHECKS = {
  "C05": dict(cat="translation_validation", tech="Coq theorem: state-repeat certificate => canonical run never halts; certificates computed and re-checked by the extracted machine; backends observed in child processes",
    text="Theorem C05_state_repeat_diverges: if cert_ok accepts (i,d) the canonical machine is still running after any number of steps (equivalent configurations stay equivalent, C05_equiv_runs). Programs are classified by the extracted machine (halting / certified divergent); certified-divergent programs must not return from any backend/level within the window and their streamed events must be a prefix of the certified periodic word; halting programs must return with the canonical events. In-place divergence preservation is also theorem C04_inplace_prefix.",
    note="Backend non-return is observed through a wall-clock window; optimiser/bytecode layers are validated per program.", ref="§4 C05"),
- "C06": dict(cat="exploration", tech="guard-page allocator runs of all backends on roaming programs; index discipline proved on Tape.v (C09_raw_in_bounds)",
-   text="While an executor runs, every heap allocation is placed flush against PROT_NONE pages (left-flush and right-flush runs, debug and release); roaming programs (moves of thousands of cells, scans, revisits) must not fault and must produce the canonical events. The model-level statement (no raw index outside [0,size), refinement of the unbounded tape) is theorem C09_raw_in_bounds/C09_tape_refines for the Memory API; BCRaw.v (one-sided probes) is not built yet.",
+ "C06": dict(cat="exploration", tech="Coq theorem C06_protocol_safe on the one-sided probe protocol (BCRaw.v over Tape.v) tied to runtime::Memory by model-driven histories; operands-in-window by the certified checker (C11); machine level: guard-page allocator runs of all backends on roaming programs",
+   text="While an executor runs, every heap allocation is placed flush against PROT_NONE pages (left-flush and right-flush runs, debug and release); roaming programs (moves of thousands of cells, scans, revisits) must not fault and must produce the canonical events. The model-level statement (no raw index outside [0,size), refinement of the unbounded tape) is theorem C09_raw_in_bounds/C09_tape_refines for the Memory API; The one-sided probe protocol of the bytecode interpreter/JIT (entry makes the window accessible; a move probes only the window end in its direction) is theorem C06_protocol_safe: for every history, no raw index outside the buffer and reads return the last written value; the C06 check drives runtime::Memory through model-predicted protocol histories (every probe must hit/miss as predicted, every operand cell must test accessible before use).",
    note="Observation of the implementation under an adversarial allocator; not a proof about Rust pointer arithmetic or machine code.", ref="§4 C06"),
  "C07": dict(cat="translation_validation", tech="Coq theorems for the in-place (C04_inplace_prefix) and IR interpreter (C07_ir_*: prefix, finished=>complete, returns, large budget) models; limited-run engine models (Inplace.v/IR.v/BC.v with budget) vs execute_limited; property conditions checked against canonical classification",
    text="For every program (halting or certified divergent) x backend x level x budget: (finished, events) must satisfy the property (prefix / complete when finished / finished at 2^62 / never finished when divergent) and equal the result of the budgeted Coq engine models for the three interpreters. Props/C07.v proves for the IR interpreter model, for every IR program, state, environment and budget: a finished limited run equals the unlimited run, an interrupted one has budget 0 and a prefix of its events, the limited run returns within depth size+budget, and every large enough budget reproduces a terminating unlimited run. Bytecode interpreter and JIT are decided per program only.",
